@@ -27,3 +27,16 @@ def alias(a):
 def early(a, n):
     for i in range(n - 1):
         a[i] = 1
+
+
+def zip_copy(a, b, out):
+    idx = 0
+    for x, y in zip(a, b):
+        out[idx] = x + y
+        idx += 1
+
+
+def complex_parts(a, out):
+    z = (2.0 + 1j * a[0]) * (0 - 1j)
+    out[0] = z.real
+    out[1] = z.imag
